@@ -2,6 +2,7 @@
 # usage: seedtest.sh <patch.diff> <property> [tier]   -- applies a seeded change to /repo, runs the check, reverts
 P=$1; ID=$2; T=${3:-quick}
 cd /repo || exit 2
+trap 'cd /repo && git reset -q --hard HEAD && git clean -fdq' EXIT INT TERM
 git diff --quiet || { echo "/repo not clean"; exit 2; }
 git apply "$P" 2>/dev/null || git apply --3way "$P" 2>/dev/null || { echo "patch does not apply"; exit 3; }
 cp /verif/evidence/$ID.json /tmp/seedtest-evidence.json 2>/dev/null
